@@ -407,10 +407,15 @@ def run_case(case, rec, ssj=None, cache=None):
         view = oracle.TableView(dict(base))
         r = rng.random()
         if r < 0.2:
-            k = rng.choice([1, 1, 2, 3, 1.0, 1.5, 2.5])     # (float sizes: crashed before the repair of F12)
+            k = rng.choice([1, 1, 2, 3, 1.0, 1.5, 2.5, 0.5])     # (float sizes: crashed before the repair of F12)
             fspec = {'kind': rng.choice(SAFE_FILTERS + ('OverlapFilter',)), 'measure': 'OVERLAP',
                      'threshold': k, 'overlap_size': k, 'comp_op': '>='}
             req = required_pairs(view, 'OVERLAP', k)
+            if fspec['kind'] == 'OverlapFilter' and rng.random() < 0.5:
+                # OverlapFilter takes an operator: the pairs whose overlap satisfies it must survive
+                fspec['comp_op'] = rng.choice(['>', '='])
+                fn_ = model.OPS[fspec['comp_op']]
+                req = set((i, j) for (i, j), o in view.overlaps().items() if fn_(o, k))
         else:
             m = rng.choice(RATIO3)
             t = gen.random_threshold(rng)
